@@ -483,7 +483,7 @@ def translate(ctx):
 
 def stream_sizes(ctx) -> Dict[str, int]:
     if ctx.tier == "quick":
-        return {"A": 200, "B": 4000, "C": 500}
+        return {"A": 120, "B": 3000, "C": 400}
     return {"A": 1500, "B": 40000, "C": 4000}
 
 
